@@ -4,12 +4,12 @@ mod verif_kani {
     use super::*;
 
     /// K-mrs (bounded stand-in for the assumed contract O-mrs-layout of MultiRecord::serialize):
-    /// <= 3 payloads of <= 2 bytes, symbolic first position: output == (pos+i (le64) | len (le32) | bytes)*
+    /// <= 2 payloads of <= 2 bytes, symbolic first position: output == (pos+i (le64) | len (le32) | bytes)*
     #[kani::proof]
-    #[kani::unwind(8)]
+    #[kani::unwind(5)]
     fn k_mrs() {
         let n: usize = kani::any();
-        kani::assume(n <= 3);
+        kani::assume(n <= 2);
         let data: [[u8; 2]; 3] = kani::any();
         let lens: [usize; 3] = kani::any();
         kani::assume(lens[0] <= 2 && lens[1] <= 2 && lens[2] <= 2);
